@@ -337,11 +337,15 @@ PanicMail ==
 \* octet offset after the 354, the end marker itself included).  The backend
 \* reads everything it can and passes the reader's error on: the reader fails
 \* (never end-of-file), the final reply is negative, then the connection ends.
-DataCut ==
+DataCut(over) ==
   /\ InCmdMode /\ "cut" \in Alphabet
   /\ st.bdat = "none" /\ ~st.binarymime /\ st.from /\ st.nrcpt > 0
+  /\ over => cfg.maxBytes > 0
   /\ st' = ClosedSt(st)
-  /\ Emit(Cmd("DATACUT", ""), <<R(354, <<>>)>> \o Finals(R(554, <<5, 0, 0>>)),
+  \* over: what arrived before the cut already exceeds the size limit, so the
+  \* reader fails with the size error first
+  /\ Emit(Cmd("DATACUT", IF over THEN "over" ELSE ""),
+          <<R(354, <<>>)>> \o Finals(IF over THEN R(552, <<5, 3, 4>>) ELSE R(554, <<5, 0, 0>>)),
           <<CB(DataName \o ".begin", st.sess), CB(DataName \o ".end:err", st.sess),
             CB("Reset", st.sess), CB("Logout", st.sess)>>)
 
@@ -465,7 +469,7 @@ Next ==
   \/ Rset \/ Noop \/ Vrfy \/ Unimpl
   \/ \E v \in {"unknown", "empty", "short", "nospace"} : BadLine(v)
   \/ Quit \/ PeerClose \/ LongLine \/ PanicMail \/ AfterClose
-  \/ DataCut
+  \/ \E over \in BOOLEAN : DataCut(over)
   \/ \E n \in ChunkSizes, l \in BOOLEAN, p \in {"", "acc", "rej", "early"}, some \in BOOLEAN : BdatCut(n, l, p, some)
   \/ \E ir \in {"none", "empty", "bytes"}, nchal \in 0..2, fin \in {"ok", "fail"} : AuthStart(ir, nchal, fin)
   \/ AuthNoArg
